@@ -178,7 +178,7 @@ def run(tier, seed):
         res.add_violation({"suite": "layout", "what": w["fails"][0]["what"], "def": w.get("text"),
                            "expected": "same as canonical rendering %r" % w.get("canon"),
                            "observed": w["fails"][0], "row": w, "occurrences": len(rs),
-                           "symptoms": sorted({x["fails"][0]["what"] for x in rs}), "signature": sig})
+                           "symptoms": sorted({f["what"] for x in rs for f in x["fails"]}), "signature": sig})
     # ---- typed parameters --------------------------------------------------
     r = vlib.tlc_must_pass(vlib.tlc("MC_C16p", "MC_C16p_q" if q else "MC_C16p_t", workers=4, timeout=1500, xmx="8g", seed=seed))
     vlib.require_coverage(r, ["Given", "Defaulted", "Missing", "Implicit"])
@@ -217,8 +217,10 @@ def run(tier, seed):
     res.extra["layout_texts"] = ntexts
     res.extra["parameter_definitions"] = len(exps)
     res.rule = ("Layout: per case (a definition AST used as the top-level definition or as the body of a macro), TLC enumerates every "
-                "layout with at most N simultaneous non-default choices over 15 layout dimensions (whitespace around | = , : $, "
-                "one line / delimiter-first / delimiter-last lines, LF CR CRLF, continuation lines, comment position and content, "
+                "layout with at most N simultaneous non-default choices over 16 layout dimensions (whitespace around | = , : $, "
+                "blank / two blanks / tab between the elements of a step, "
+                "one line / delimiter-first / delimiter-last lines, LF CR CRLF, continuation lines with the colon in the first column or "
+                "indented by blanks / a tab, comment position and content, "
                 "empty steps, modifier position and =true spelling, < > sugar, subscript digits, text around the definition) and "
                 "checks that the rendered text reads back as the AST. quick: 32 cases x <=2 choices; thorough: the 32 cases x <=3 choices, every "
                 "definition of <=3 steps over 3 base steps (0, 1 and 3 arguments) x all 8 modifier combinations per step x <=1 "
@@ -232,7 +234,10 @@ def run(tier, seed):
                 "Non-trivial = distinct non-canonical texts + parameter definitions with a non-default value or a rejection.")
     res.assumptions = [
         "probe operators (t_add, t_dbl, t_gamut) are defined by the harness",
-        "a continuation colon stands in the first column of its line (the only form the documentation shows); indented colons are not generated",
+        "a continuation colon is the first character of its line after optional indentation (blanks or a tab): Rumination 009 calls "
+        "the format free-format, every line is trimmed and the statement counts continuation colons and whitespace around every "
+        "separator as insignificant; the indented form must therefore behave like the first-column form the documentation shows. "
+        "A line break inside a macro name (ns<eol>:id) is not generated",
         "an empty step added to a lone macro invocation is not generated (steps() of a one-step pipeline names the macro, steps() of the macro lists its body)",
         "prefix position only for bare modifiers (inv=true in front of the name is not 'a step that starts with a name')",
         "spellings documented as undefined are not generated: minutes/seconds >= 60, minus sign with hemisphere letter; nor inf/nan/hex, flag=false, NBSP",
